@@ -208,7 +208,7 @@ type cgraph struct {
 	ne    map[string]bool
 	seen  map[string]bool
 	vals  map[string]ssa.Value
-	alias map[string]string // union-find over register terms made equal by E-facts
+	alias map[string]string  // union-find over register terms made equal by E-facts
 	rows  map[string][]int64 // rows of FindAll results named so far: list@baseterm -> offsets
 }
 
